@@ -10,7 +10,59 @@ import vlib
 PEER_HEAD_MAX_EXPECTED = 10     # "at most ten entries" in the property text
 
 
+def gen_fan(r, backend):
+    """A fan of 3-8 concurrent branches, all recorded in the cache, then a command that descends from
+    three or more of them (nested merges / a merge of three / a child of such a merge); optionally with
+    unrelated branches so that the cache is nearly full (9-10 entries)."""
+    g = ql.Graph()
+    g.init(r.choice([1, 2, 3]))
+    if r.chance(1, 2):
+        g.linear(g.n() - 1, r.choice([1, 4, 11]))
+    root = g.n() - 1
+    k = r.range(3, 8)
+    tips = [g.linear(root, r.choice([1, 1, 2, 3, 10, 12])) for _ in range(k)]
+    extra = []
+    if r.chance(1, 2):
+        for _ in range(r.choice([9, 10]) - k):
+            extra.append(g.linear(root, r.choice([1, 2, 3])))
+    order = list(tips)
+    r.shuffle(order)
+    joins = []                       # joins[j] descends from order[0..j+1]
+    cur = order[0]
+    for t in order[1:]:
+        if r.chance(1, 3):
+            cur = g.linear(cur, r.choice([1, 2]))          # a child between the merges
+        cur = g.merge(cur, t, r.choice([1, 1, 2, 3]))
+        joins.append(cur)
+    child_all = g.linear(joins[-1], r.choice([1, 2, 11]))
+    child_three = g.linear(joins[1], r.choice([1, 2])) if r.chance(1, 2) else None
+    hs = sorted(g.tips())
+    ops = list(g.ops) + ["H:" + ",".join(map(str, hs))]
+    headmask = 0
+    for h in hs:
+        headmask |= g.anc[h]
+    rec = tips + extra
+    r.shuffle(rec)
+    adds = [("pa", x) for x in rec]
+    targets = [joins[-1], joins[1], child_all] + ([child_three] if child_three is not None else []) + joins[2:]
+    variant = r.below(4)
+    if variant == 0:
+        final = [joins[-1]]
+    elif variant == 1:
+        final = [joins[1], r.choice(targets)]
+    elif variant == 2:
+        final = [child_all]
+    else:
+        final = [child_three if child_three is not None else joins[1], joins[-1]]
+    # occasionally re-record the branch tips afterwards (now ancestors of an entry: ignored)
+    adds += [("pa", x) for x in final] + [("pa", r.choice(tips)) for _ in range(r.below(3))]
+    line = backend + " " + " ".join(ops) + " pc " + " ".join(":".join(map(str, a)) for a in adds)
+    return g, hs, headmask, adds, line
+
+
 def gen_case(r, total, backend, wide):
+    if wide == "fan":
+        return gen_fan(r, backend)
     g = ql.Graph()
     g.init(r.choice([1, 2, 3]))
     if wide:
@@ -138,7 +190,7 @@ def run(ctx):
     ncase = 800 if ctx.thorough else 48
     plan = []
     for i in range(ncase):
-        wide = (i % 3 == 0)
+        wide = True if i % 3 == 0 else ("fan" if i % 3 == 1 else False)
         plan.append((r.range(20, 200) if ctx.thorough else r.range(15, 90), r.choice(["mem", "mem", "libc"]), wide))
     gens = [gen_case(r, t, b, w) for (t, b, w) in plan]
     rc, out, err = vlib.run_bin(binp, input="".join(g[4] + "\n" for g in gens), timeout=3000)
@@ -170,9 +222,14 @@ def run(ctx):
             if c == prev:
                 stats["calls_ignored"] += 1
             else:
-                if len([e for e in prev if e not in c]):
+                gone = len([e for e in prev if e not in c])
+                if gone:
                     stats["calls_removing_ancestors"] += 1
                     removed = True
+                if gone >= 3:
+                    stats["calls_superseding_3_or_more_entries"] += 1
+                    if len(prev) >= 9:
+                        stats["calls_superseding_3_or_more_in_nearly_full_cache"] += 1
                 if len(c) > len(prev) or (c and c[-1] not in prev):
                     stats["calls_adding"] += 1
                     grew = True
@@ -199,7 +256,8 @@ def run(ctx):
         "evaluations": ncalls,
         "distinct_nontrivial": nontrivial,
         "rule": "case = a graph built through the real storage API (memory / libc backend; every third one with 11-15 parallel "
-                "branches so the cache fills up) and 8-45 PeerCache::add_command calls mixing committed commands, commands stored "
+                "branches so the cache fills up, every third one a fan of 3-8 recorded concurrent branches joined by nested merges, "
+                "also with the cache nearly full) and 8-45 PeerCache::add_command calls mixing committed commands, commands stored "
                 "but not under the committed heads, stale/wrong max cuts and unknown ids; the cache is read back (PeerCache::heads) "
                 "after every call; non-trivial = some call removed ancestors and some call added an entry",
         "distribution": dict(stats),
